@@ -317,6 +317,38 @@ theorem unicast_delivers_outside_lock :
       (fun m => m.deferredDeliver) = true := by
   decide
 
+open Ro.Facts in
+/-- unicast `SubscribeWithContext` (since /repo 5f819fc the unlocks are explicit): the method starts by taking `s.mu`; every access to
+    the subject's fields and every delivery to the new subscriber - the stored terminal, the rejection, the REPLAY of the queued values -
+    comes before the last release of the lock; the teardown (which takes `s.mu` itself) is registered after it -/
+def unicastSubscribeOk (m : LockRow) : Bool :=
+  let sk := m.skeleton
+  let lastUnlock := (sk.zipIdx.filter (fun p => p.1 == "unlock")).map (·.2) |>.getLast?
+  match lastUnlock with
+  | none => false
+  | some u =>
+    sk.head? == some "lock" &&
+    (sk.zipIdx.all fun p =>
+      if p.1 == "deliver" || p.1 == "access" || p.1 == "broadcast" then decide (p.2 < u)
+      else if p.1 == "teardown" then decide (u < p.2)
+      else if p.1 == "lock" then p.2 == 0
+      else p.1 == "unlock" || p.1 == "drop") &&
+    sk.contains "teardown" && !m.deferUnlock
+
+/-- the replay of a unicast subject's backlog to a new subscriber happens inside the critical section of `Subscribe` (so a value a
+    producer sends meanwhile is delivered after the backlog and the producer's Next returns only then: the premise of kind=nextret),
+    and the teardown is registered outside it (so a subscriber that is closed by then does not make `Subscribe` wait for itself) -/
+theorem unicast_subscribe_locked_replay :
+    (RoGen.SubjectLocks.table.filter (fun m => m.subject == "unicast" && m.method == "SubscribeWithContext")).all unicastSubscribeOk = true ∧
+    (RoGen.SubjectLocks.table.any fun m => m.subject == "unicast" && m.method == "SubscribeWithContext") = true := by
+  decide
+
+-- non-vacuity: a replay moved behind the release of the lock is rejected; so is a teardown registered while the lock is held
+example : unicastSubscribeOk (⟨"unicast", "SubscribeWithContext", "", 0, false, false,
+    ["lock", "access", "access", "unlock", "teardown", "deliver"]⟩ : Ro.Facts.LockRow) = false := by decide
+example : unicastSubscribeOk (⟨"unicast", "SubscribeWithContext", "", 0, true, false,
+    ["lock", "access", "deliver", "access", "teardown"]⟩ : Ro.Facts.LockRow) = false := by decide
+
 /-! ### where it does not: micro-step witnesses -/
 
 /-- **Unsubscribe is not atomic with respect to a broadcast.**  publish, subscribers 0 and 1.
@@ -405,6 +437,7 @@ end Ro.C10
 #print axioms Ro.C10.atomic_linearizable
 #print axioms Ro.C10.subjects_linearizable
 #print axioms Ro.C10.subjects_wellLocked
+#print axioms Ro.C10.unicast_subscribe_locked_replay
 #print axioms Ro.C10.unicast_delivers_outside_lock
 #print axioms Ro.C10.unsubscribe_not_atomic_witness
 #print axioms Ro.C10.micro_agrees
